@@ -182,7 +182,7 @@ NUMS = [
 ]
 INT_NUMS = [n for n in NUMS if n['t'] == 'int' or
             (n['t'] == 'prefix' and PREFIXES[n['v']] > 0)]
-QUANTA = ['1/8', '1/100', '1/2', '1/1000', '1']
+QUANTA = ['1/8', '1/100', '1/2', '1/1000', '1', '1/3', '1/7']
 
 
 def class_name(model: RefDir, unique, r):
